@@ -714,6 +714,29 @@ func c18Scenario(st *c18Stats, e *c18Env, hi int, h c18Host, ci int, quick bool)
 			st.inc("refresh_failed")
 			continue
 		}
+		// a refresh that changes the cookie layout: the provider now reports other groups, so alice's
+		// session outgrows one cookie and carol's fits into one; the response expires the cookies of the
+		// previous layout (deletions are Set-Cookie headers like any other)
+		if !k.Redis {
+			u := e.idp.Users[user]
+			saved := u.Groups
+			if user == "carol" {
+				u.Groups = []string{"staff"}
+			} else {
+				u.Groups = c18BigGroups()
+			}
+			world.Advance(11 * time.Minute)
+			before := len(a.jar.For(a.scheme, a.vis, page))
+			r = step(e.px, user, "request-with-refresh-changing-layout", "GET", page, nil)
+			u.Groups = saved
+			if r.Status != 200 {
+				st.inc("refresh_failed")
+				continue
+			}
+			if after := len(a.jar.For(a.scheme, a.vis, page)); after != before {
+				st.inc("layout_changed_by_refresh")
+			}
+		}
 		clearing(user, a.jar.Clone())
 	}
 	// htpasswd form login saves a session without the provider
@@ -736,7 +759,7 @@ var c18MustSee = []string{
 	"class_ticket_set", "class_ticket_delete", "class_csrf_set", "class_csrf_delete",
 	"deletion_target_session", "deletion_target_part", "deletion_target_ticket", "deletion_target_csrf",
 	"domain_none-configured", "domain_longest-match", "domain_shortest-fallback", "ambiguous",
-	"flow_emitting_sign-in-page", "flow_emitting_login-start", "flow_emitting_callback", "flow_emitting_request-with-refresh",
+	"flow_emitting_sign-in-page", "flow_emitting_login-start", "flow_emitting_callback", "flow_emitting_request-with-refresh", "flow_emitting_request-with-refresh-changing-layout", "layout_changed_by_refresh",
 	"flow_emitting_clear-on-authorisation-failure", "flow_emitting_clear-on-invalid-session", "flow_emitting_sign-in-page-with-session",
 	"flow_emitting_sign-out", "flow_emitting_form-login", "flow_emitting_form-sign-out", "login_complete", "login_incomplete",
 }
